@@ -33,6 +33,12 @@ func calleeName(c *ssa.CallCommon) string {
 	if b, ok := c.Value.(*ssa.Builtin); ok {
 		return b.Name()
 	}
+	if owner, field := funcFieldOf(c.Value); owner != "" {
+		return "field:" + owner + "." + field
+	}
+	if n := funcTypeOf(c.Value); n != "" {
+		return "type:" + n
+	}
 	return "<dynamic>"
 }
 
@@ -97,6 +103,20 @@ func (f *frame) callCommon(c *ssa.CallCommon, in ssa.Instruction, st *bstate, re
 	lvs := f.lvArgs(c)
 	args := f.callArgs(c)
 
+	// calls through a function-typed struct field: `self` names the owning struct
+	f.curSelf = nil
+	if owner, _ := funcFieldOf(c.Value); owner != "" && c.StaticCallee() == nil {
+		switch x := c.Value.(type) {
+		case *ssa.UnOp:
+			if fa, ok := x.X.(*ssa.FieldAddr); ok {
+				sv := f.load(st, f.lvalOf(fa.X))
+				f.curSelf = &sv
+			}
+		case *ssa.Field:
+			sv := f.val(x.X)
+			f.curSelf = &sv
+		}
+	}
 	// receivers of repo methods are assumed non-nil inside the method: check
 	// that assumption at every static call
 	if fn := c.StaticCallee(); fn != nil && fn.Pkg != nil && f.eng().isRepoPkg(fn.Pkg.Pkg) && fn.Signature.Recv() != nil && len(c.Args) > 0 {
@@ -131,6 +151,11 @@ func (f *frame) callCommon(c *ssa.CallCommon, in ssa.Instruction, st *bstate, re
 		}
 	}
 	cs := f.callsite(name, ord)
+	if cs == nil && f.isForeignCall(c) {
+		// "callsite foreign#*": every call that leaves the repository (or is
+		// dispatched dynamically) and has no annotation of its own
+		cs = f.callsite("foreign", 0)
+	}
 	if cs != nil {
 		f.callsiteBefore(cs, c, args, st, label, in)
 	}
@@ -205,7 +230,7 @@ func (f *frame) callCommon(c *ssa.CallCommon, in ssa.Instruction, st *bstate, re
 	if cs != nil {
 		f.callsiteAfter(cs, c, args, res, st, label, in)
 	}
-	f.recordErr(name, ord, res, resT, cs, label)
+	f.recordErr(name, ord, res, resT, cs, label, st)
 	return res
 }
 
@@ -509,6 +534,9 @@ func (f *frame) applyContract(fc *FuncC, pkg *types.Package, pnames, rnames []st
 	for i := range args {
 		env.vars[fmt.Sprintf("arg%d", i)] = args[i]
 	}
+	if f.curSelf != nil {
+		env.vars["self"] = *f.curSelf
+	}
 	// preconditions
 	for _, r := range fc.Requires {
 		if !f.eng().clauseActive(r) {
@@ -737,7 +765,7 @@ func (f *frame) deferInstr(x *ssa.Defer, st *bstate) {
 	f.defers = append(f.defers, d)
 }
 
-func (f *frame) runDefers(st *bstate) {
+func (f *frame) runDefers(st *bstate, at ssa.Instruction) {
 	vc := f.vc
 	for i := len(f.defers) - 1; i >= 0; i-- {
 		d := f.defers[i]
@@ -747,6 +775,16 @@ func (f *frame) runDefers(st *bstate) {
 		armed := d.armed
 		branch := st.clone()
 		branch.alive = vc.define("a", "Bool", and(st.alive, armed))
+		var cs *CallsiteC
+		if _, isB := c.Value.(*ssa.Builtin); !isB {
+			cs = f.callsite(name, f.srcOrdinal(d.instr, name))
+			if cs == nil && f.isForeignCall(c) {
+				cs = f.callsite("foreign", 0)
+			}
+		}
+		if cs != nil {
+			f.callsiteBefore(cs, c, d.args, branch, "defer "+name, at)
+		}
 		if b, ok := c.Value.(*ssa.Builtin); ok {
 			f.builtin(b, c, d.instr, branch)
 		} else if mc, ok := c.Value.(*ssa.MakeClosure); ok && f.canInlineClosure(mc) {
@@ -757,6 +795,9 @@ func (f *frame) runDefers(st *bstate) {
 		} else {
 			f.havocAll(branch, "defer "+name)
 			vc.note("havoc: deferred call to " + name + " without contract")
+		}
+		if cs != nil {
+			f.callsiteAfter(cs, c, d.args, TV{}, branch, "defer "+name, at)
 		}
 		skip := st.clone()
 		skip.alive = vc.define("a", "Bool", and(st.alive, not(armed)))
@@ -792,6 +833,22 @@ func (f *frame) callsite(name string, ord int) *CallsiteC {
 	return nil
 }
 
+// isForeignCall: the callee is not a function of this repository that is
+// called statically.
+func (f *frame) isForeignCall(c *ssa.CallCommon) bool {
+	fn := c.StaticCallee()
+	if fn == nil {
+		return true
+	}
+	if fn.Origin() != nil {
+		fn = fn.Origin()
+	}
+	if fn.Pkg == nil {
+		return true
+	}
+	return !f.eng().isRepoPkg(fn.Pkg.Pkg)
+}
+
 func matchCallee(pat, name string) bool {
 	if pat == name {
 		return true
@@ -803,6 +860,9 @@ func matchCallee(pat, name string) bool {
 
 func (f *frame) callEnv(c *ssa.CallCommon, args []TV, st *bstate) *Env {
 	env := f.baseEnv(st)
+	if f.curSelf != nil {
+		env.vars["self"] = *f.curSelf
+	}
 	for i := range args {
 		env.vars[fmt.Sprintf("arg%d", i)] = args[i]
 	}
@@ -816,6 +876,16 @@ func (f *frame) callsiteBefore(cs *CallsiteC, c *ssa.CallCommon, args []TV, st *
 	for _, ga := range cs.Before {
 		f.ghostAssign(ga, env, st)
 	}
+	f.preserved = nil
+	for _, pr := range cs.Preserves {
+		// a name that is not in scope yet at this call (wildcard call sites) has
+		// nothing to preserve
+		if tv, ok := f.tryTrans(pr.Expr, env); ok {
+			f.preserved = append(f.preserved, f.snapshot(tv, st))
+		} else {
+			f.preserved = append(f.preserved, snap{})
+		}
+	}
 	for _, a := range cs.Assert {
 		if !f.eng().clauseActive(a) {
 			continue
@@ -825,10 +895,20 @@ func (f *frame) callsiteBefore(cs *CallsiteC, c *ssa.CallCommon, args []TV, st *
 }
 
 func (f *frame) callsiteAfter(cs *CallsiteC, c *ssa.CallCommon, args []TV, res TV, st *bstate, label string, in ssa.Instruction) {
-	if len(cs.After) == 0 && len(cs.Assume) == 0 {
+	if len(cs.After) == 0 && len(cs.Assume) == 0 && len(cs.Preserves) == 0 {
 		return
 	}
 	env := f.callEnv(c, args, st)
+	f.anchorAt(env, in, false)
+	f.localsEnv(env, st)
+	for i, pr := range cs.Preserves {
+		if i < len(f.preserved) && f.preserved[i].v.T != "" {
+			f.assume(st, f.sameSnapshot(f.preserved[i], f.trans(pr.Expr, env), st))
+			f.vc.note("assumed frame at call site " + label + ": preserves " + pr.Text)
+		}
+	}
+	f.preserved = nil
+	env = f.callEnv(c, args, st)
 	f.anchorAt(env, in, true)
 	f.localsEnv(env, st)
 	rs := res.Tuple
@@ -850,6 +930,47 @@ func (f *frame) callsiteAfter(cs *CallsiteC, c *ssa.CallCommon, args []TV, res T
 	}
 }
 
+// snapshot of a value for preserves/unchanged: the value itself and, for
+// maps, the rows holding their contents.
+type snap struct {
+	v        TV
+	dom, val string
+	row      string
+}
+
+func (f *frame) snapshot(v TV, st *bstate) snap {
+	s := snap{v: v}
+	if v.Ty != nil {
+		if t, ok := v.Ty.Underlying().(*types.Map); ok {
+			ks, vs := f.sortOf(t.Key()), f.sortOf(t.Elem())
+			s.dom = sel(f.vc.comp(st, compMdom(ks, vs), "(Array Int (Array "+ks+" Bool))"), v.T)
+			s.val = sel(f.vc.comp(st, compMval(ks, vs), "(Array Int (Array "+ks+" "+vs+"))"), v.T)
+		}
+		if t, ok := v.Ty.Underlying().(*types.Slice); ok && v.S == "Slice" {
+			es := f.sortOf(t.Elem())
+			s.row = sel(f.vc.comp(st, compMem(es), arr2(es)), "(s_base "+v.T+")")
+		}
+	}
+	return s
+}
+
+func (f *frame) sameSnapshot(old snap, v TV, st *bstate) string {
+	var eqv string
+	if v.S == "Iface" {
+		eqv = f.ifaceEq(old.v.T, v.T)
+	} else {
+		eqv = eq(old.v.T, v.T)
+	}
+	now := f.snapshot(v, st)
+	if old.row != "" && now.row != "" {
+		return and(eqv, eq(old.row, now.row))
+	}
+	if old.dom == "" {
+		return eqv
+	}
+	return and(eqv, eq(old.dom, now.dom), eq(old.val, now.val))
+}
+
 func (f *frame) ghostAssign(ga GhostAssign, env *Env, st *bstate) {
 	cur, ok := st.ghost[ga.Name]
 	if !ok {
@@ -860,8 +981,12 @@ func (f *frame) ghostAssign(ga GhostAssign, env *Env, st *bstate) {
 	st.ghost[ga.Name] = cur
 }
 
-func (f *frame) recordErr(name string, ord int, res TV, resT types.Type, cs *CallsiteC, label string) {
-	if f.contract == nil || !f.contract.NoSwallow || !f.top {
+func (f *frame) recordErr(name string, ord int, res TV, resT types.Type, cs *CallsiteC, label string, st *bstate) {
+	if !f.top || !f.eng().noSwallowActive(f.contract) {
+		return
+	}
+	g, ok := st.ghost[noSwallowGhost]
+	if !ok {
 		return
 	}
 	if cs != nil && cs.Ignore != "" {
@@ -874,7 +999,8 @@ func (f *frame) recordErr(name string, ord int, res TV, resT types.Type, cs *Cal
 	}
 	for _, r := range rs {
 		if r.S == "Iface" && r.Ty != nil && types.Identical(r.Ty, errorType) {
-			f.errCalls = append(f.errCalls, errCall{name: fmt.Sprintf("%s#%d", shortName(name), ord), err: r})
+			g.T = f.vc.define("ghost."+noSwallowGhost, "Bool", or(g.T, not(f.ifaceEq(r.T, zeroOfSort("Iface")))))
+			st.ghost[noSwallowGhost] = g
 		}
 	}
 }
@@ -1039,6 +1165,19 @@ func (f *frame) inlineClosure(mc *ssa.MakeClosure, args []TV, st *bstate, label 
 	merged := sub.mergeStates(fn.Blocks[0], ins)
 	*st = *merged
 	f.locals = append(f.locals, sub.locals...)
+}
+
+func (f *frame) tryTrans(e CE, env *Env) (res TV, ok bool) {
+	defer func() {
+		if r := recover(); r != nil {
+			if ce, isC := r.(cerr); isC && strings.Contains(string(ce), "unresolved name") {
+				ok = false
+				return
+			}
+			panic(r)
+		}
+	}()
+	return f.trans(e, env), true
 }
 
 func (f *frame) tryTransBool(e CE, env *Env) (res string, ok bool) {
